@@ -190,10 +190,11 @@ def gen_mutations(r, info, conn, n):
         elif k < 72 and b["segnum"]: out.append("c17mut occ %s%02x%02x" % (a, r.choice(b["segnum"]), r.below(2)))
         elif k < 76: out.append("c17mut conf %s%02x%02x%02x" % (a, r.below(2), r.below(2), r.below(2)))
         elif k < 90 and b["segnum"] and info["trains"]:
-            cnt = r.range(1, 2); data = ""
-            for _ in range(cnt):
-                t = r.choice(info["trains"])["dcc"]
-                data += "%02x%02x" % (t[0], (t[1] & 0x3f) | (r.choice([0, 2]) << 6))
+            cnt = r.range(1, 3); data = ""
+            same = r.choice(info["trains"])["dcc"] if r.chance(1, 3) else None     # one decoder listed twice or three times (both directions)
+            for j in range(cnt):
+                t = same or r.choice(info["trains"])["dcc"]
+                data += "%02x%02x" % (t[0], (t[1] & 0x3f) | ((r.choice([0, 2]) if same is None else [0, 2, 0][j]) << 6))
             out.append("c17mut addr %s%02x%02x%s" % (a, r.choice(b["segnum"]), cnt, data))
         elif k < 94 and b["segnum"]: out.append("c17mut cur %s%02x%02x" % (a, r.choice(b["segnum"]), r.choice([0, 1, 15, 16, 100, 254, 255])))
         elif k < 97 and info["trains"]:
@@ -524,6 +525,20 @@ def run(ck):
             if ac in ("unknown", "null") or e["hdr"].startswith("state"): nontrivial += 1
         for p in problems:
             ck.broken.append({"kind": "harness", "name": "c17-run", "detail": p, "config": cfg})
+        # getter calls and frees run in forked children; if the driver itself died under the sanitizer, a state change (or the
+        # library's own use of a query result inside one, e.g. the train-position query of the occupancy handlers) crashed
+        if outs[0][0] != 0 or outs[1][0] != 0:
+            err_ = (outs[0][2] if outs[0][0] else outs[1][2]) or ""
+            import re as _re
+            fn = _re.search(r'#\d+ 0x[0-9a-f]+ in (bidib_\w+) \S*/src/', err_)
+            key = "state-change.crash.%s" % (fn.group(1) if fn else "unknown")
+            keys_seen[key] = keys_seen.get(key, 0) + 1
+            if keys_seen[key] == 1:
+                done = sum(1 for l in outs[0][1] if l.startswith(("g ", "mut ", "st begin")))
+                ck.violation(key, {"property": "C17", "key": key, "config": cfg, "config_files": config_files(cfg), "script": list(script),
+                                   "driver_exit": [outs[0][0], outs[1][0]], "stderr": err_[-1800:], "output_events_before_the_crash": done,
+                                   "meaning": "the driver process died (sanitizer report / signal) outside the forked getter children: a state change, or the library's own use and release of a query result inside it, faulted",
+                                   "how_to_replay": "bin/check C17 --replay <this file>"})
         # oracle on the implementation's observation
         for key, detail in oracle(ev, info):
             keys_seen[key] = keys_seen.get(key, 0) + 1
